@@ -221,6 +221,36 @@ func init() {
 		defer closeTraceOut()
 		rng := rand.New(rand.NewSource(seedFromEnv()*31337 + int64(a.sub)))
 		g := &Gen{r: rng}
+		// namespace scoping patterns, systematically: a parent declaring the default namespace and the prefixes p, q in every
+		// order (every non-empty subset), a first child that undeclares the default (xmlns=""), overrides a prefix, does
+		// both or neither, then a later sibling with a grandchild - the parent's list and what the later sibling inherits
+		// must not depend on what the first child did
+		decl := map[string]Event{"": {K: "ns", Lo: ch(""), V: uriU1}, "p": {K: "ns", Lo: ch("p"), V: uriU1}, "q": {K: "ns", Lo: ch("q"), V: uriU2}}
+		for _, order := range [][]string{{""}, {"p"}, {"", "p"}, {"p", ""}, {"", "p", "q"}, {"p", "", "q"}, {"p", "q", ""}, {"q", "p"}, {"", "q"}, {"q", ""}} {
+			for childDoes := 0; childDoes < 6; childDoes++ {
+				out := []Event{{K: "elem", Lo: ch("r")}}
+				for _, p := range order {
+					out = append(out, decl[p])
+				}
+				out = append(out, Event{K: "attr", Lo: ch("x"), V: ch("1")}, Event{K: "elem", Lo: ch("first")})
+				switch childDoes {
+				case 1:
+					out = append(out, Event{K: "ns", Lo: ch(""), V: ch("")})
+				case 2:
+					out = append(out, Event{K: "ns", Lo: ch("p"), V: uriU2})
+				case 3:
+					out = append(out, Event{K: "ns", Lo: ch("p"), V: uriU2}, Event{K: "ns", Lo: ch(""), V: ch("")})
+				case 4:
+					out = append(out, Event{K: "ns", Lo: ch(""), V: ch("")}, Event{K: "ns", Lo: ch("n1"), V: uriU1}, Event{K: "attr", Lo: ch("y"), V: ch("2")})
+				case 5:
+					out = append(out, Event{K: "ns", Lo: ch(""), V: uriU2}, Event{K: "ns", Lo: ch(""), V: ch("")})
+				}
+				out = append(out, Event{K: "elem", Lo: ch("inner")}, Event{K: "end"}, Event{K: "end"},
+					Event{K: "elem", Lo: ch("after")}, Event{K: "elem", Lo: ch("deep")}, Event{K: "text", V: ch("t")}, Event{K: "end"}, Event{K: "end"},
+					Event{K: "comment", V: ch("c")}, Event{K: "end"})
+				writeTrace(storeTraceLine(out))
+			}
+		}
 		for i := 0; i < a.n; i++ {
 			d := g.Doc(4 + rng.Intn(40))
 			evs := d.Events()
